@@ -27,6 +27,8 @@ _code_matches = []
 
 
 def find_core_tokens(string, root):
+    # forget code span matches left behind by a parse that did not complete
+    del _code_matches[:]
     delimiters = []
     matches = []
     escaped = False
